@@ -110,6 +110,14 @@ namespace {
             int bits = id % 7 + 1;
             for (int b = 0; b < 3; ++b) if (bits & (1 << b)) sp |= spec_menu(b);
             set_specifiers(const_cast<ipr::Decl*>(d), sp);
+            // one declaration in three is recorded as the definition of its declaration set (often not the first of the set):
+            // what a scope answers about masters, declaration sets and selection does not depend on which member is the definition
+            if (id % 3 == 2) {
+               auto md = const_cast<ipr::Decl*>(d);
+#define TRY(K) if (auto p = dynamic_cast<impl::K*>(md)) { p->decl_data.master_data->def = p; }
+               TRY(Var) TRY(Field) TRY(Bitfield) TRY(Typedecl) TRY(Fundecl)
+#undef TRY
+            }
          }
          return id;
       }
